@@ -116,8 +116,11 @@ pub fn parse_rule(to_parse: &str) -> Result<Rule, String> {
                 Ok(sg) => {
                     match sg {
                         Goal::ComplexGoal(h) => { head = h; },
-                        _ => { panic!("parse_rule() - \
-                               Head of rule must be complex term."); },
+                        _ => {
+                            let err = pr_error("Head of rule must be \
+                                                a complex term.", s);
+                            return Err(err);
+                        },
                     }
                 },
                 Err(err) => { return Err(err); },
